@@ -80,6 +80,8 @@ check("C05", "scans: exactly the live keys, once, in order, within bounds", [
        "<=3 puts/deletes over 2 keys"),
     ob("VerifC05_MemtableScanSurvivesWrites", "pkg/memtable", "a scan over the active memtable interleaved operation by operation with another client's writes (anywhere relative to the scan position): strictly ascending, duplicate-free, yields every entry that existed before it started",
        "<=3 pre-existing entries, <=2 interleaved writes at any of the scan's steps"),
+    ob("VerifC05_TxScanOverlay", "pkg/engine", "committed state (each key absent / in the memtable / flushed) + an open read-write transaction with 0-2 buffered puts/deletes: full scan, range scan, Seek(t) and SeekToLast inside the transaction = live keys with the transaction's writes overlaid, once each, ascending, latest values",
+       "2 keys", "3 keys", q={"budget_s": 300}, t={"budget_s": 900}),
     ob("VerifC05_EngineScan", "pkg/engine/storage", "storage.Manager full and range scans after a symbolic program", "<=3 steps, 3 keys, MemTableSize in {1, default}", "<=4 steps", t={}),
 ], [SIMFS, CLOCK, HASH, BLOOM, RAND, LOG, TIERA], [])
 
@@ -141,7 +143,9 @@ check("C12", "compaction preserves content; deleted keys stay deleted", [
     ob("VerifC12_CompactPreservesView", "pkg/compaction", "2-3 real SSTables with symbolic levels and tombstone placement, one compaction cycle, merged view before = after", "2-3 files, 2 keys, levels 0-1", q={"budget_s": 400}),
     ob("VerifC12_CompactionInWorkload", "pkg/engine", "put+flush / delete+flush / triggered compaction / retire-flushed-logs+reopen steps on an engine with a level-0 trigger of 2: after every step and at the end each key reads as its latest write says, also from the compacted files after a reopen with the old logs gone",
        "2..4 steps, writes on 1 of 2 keys, probe over both", "2..5 steps, writes on both keys", q={"budget_s": 400}, t={"budget_s": 1200}),
-], [SIMFS, CLOCK, HASH, BLOOM, JSON, LOG, TIERA], ["range compaction (CompactRange)", "crash during compaction", "more than 3 input files in the directory-level harness"])
+    ob("VerifC12_CrashDuringCompaction", "pkg/engine", "2 (thorough 2-3) flushed level-0 tables with successive versions of a key (value / overwrite / delete) and a second key; the process dies at any file-system step of a triggered compaction cycle (both crash models); logs retired; reopened on whatever table files the crash left: every key reads as its latest write says",
+       "2 tables, every crash point of the cycle", "2-3 tables", q={"budget_s": 400}, t={"budget_s": 1200}),
+], [SIMFS, CLOCK, HASH, BLOOM, JSON, LOG, TIERA], ["range compaction (CompactRange)", "more than 3 input files in the directory-level harness"])
 
 check("C13", "a replica applies the primary's log in order, exactly once", [
     ob("VerifC13_ApplyStepInductive", "pkg/replication", "one step of WALBatchApplier.ApplyEntries from an arbitrary cursor with an arbitrary batch and an apply function failing at a symbolic index", "<=3 entries per batch"),
